@@ -349,6 +349,25 @@ theorem conversion_independent_of_request (i : Input) (l f : Bool) :
           cases validated (applyHints Gen.hintRows h info) <;> rfl
       · rfl
 
+/-- **what else is in the tree does not decide**: whether a legacy font info is accepted depends on the font
+    info (and, for format 1, the hint data) alone — not on a `features.fea` being present, empty or not, on the
+    other lib keys, or on the data request -/
+theorem acceptance_independent_of_other_files (i : Input) (f : Option String) (ks : List String) (l ft : Bool) :
+    (load { i with feaFile := f, libKeys := ks, reqLib := l, reqFeatures := ft }).toOption.isSome =
+      (load i).toOption.isSome := by
+  unfold load
+  cases hf : fromFile i.fmt i.attrs with
+  | error e => rfl
+  | ok info =>
+    simp only
+    split
+    · cases i.robofab.hint with
+      | none => rfl
+      | some h =>
+        simp only
+        cases validated (applyHints Gen.hintRows h info) <;> rfl
+    · rfl
+
 /-! ### non-vacuity -/
 
 example : (fromFile 2 [("openTypeHheaAscender", .num 0x4029000000000000)]).toOption =
